@@ -114,7 +114,7 @@ def _pyval(v):
     return v
 
 
-def asarray(x, dtype=None):
+def _live(x, dtype=None):
     if isinstance(x, SArr):
         if dtype is not None and as_dt(dtype) != x.dtype:
             return x.astype(dtype)
@@ -138,9 +138,20 @@ def asarray(x, dtype=None):
     raise Unsupported('asarray of %r' % type(x))
 
 
+def asarray(x, dtype=None):
+    """SArr inputs are frozen (snapshot of current contents): arrays derived from them must not see
+    later in-place updates of the operand.  View-producing functions use _live instead."""
+    r = _live(x, dtype)
+    if r is x and isinstance(x, SArr):
+        f = SArr(x.shape, x._snapshot(), x.dtype)
+        if getattr(x, '_delta', None) is not None:
+            f._delta = x._delta
+        return f
+    return r
+
+
 def array(x, dtype=None, copy=True):
-    r = asarray(x, dtype)
-    return r.copy() if isinstance(x, SArr) else r
+    return asarray(x, dtype)
 
 
 asanyarray = asarray
@@ -439,9 +450,137 @@ def outer(a, b):
     return SArr((a.shape[0], b.shape[0]), lambda idx: a.at(idx[0]) * b.at(idx[1]), dt)
 
 
+def _factors(d):
+    """atomic multiplicative factors of a dimension (ints > 1 and symbolic atoms)"""
+    if isinstance(d, int):
+        return [] if d == 1 else [d]
+    z = z3.simplify(d.z)
+    if z3.is_int_value(z):
+        v = z.as_long()
+        return [] if v == 1 else [v]
+    if z3.is_app(z) and z.decl().kind() == z3.Z3_OP_MUL:
+        out = []
+        for c in z.children():
+            out += _factors(SInt(c))
+        return out
+    return [SInt(z)]
+
+
+def _same_factor(x, y):
+    if isinstance(x, int) or isinstance(y, int):
+        return isinstance(x, int) and isinstance(y, int) and x == y
+    return x.z.eq(y.z)
+
+
+def _prod(fs):
+    r = 1
+    for f in fs:
+        r = r * f
+    return r
+
+
+def split_index(i, w):
+    """(hi, lo) with i = hi*w + lo and 0 <= lo < w.  Pattern-matches i = x*w + y when the path
+    condition entails 0 <= y < w; otherwise quotient-remainder variables."""
+    if isinstance(i, int) and isinstance(w, int):
+        return i // w, i % w
+    iz = z3.simplify(lift(i).z)
+    wz = z3.simplify(lift(w).z)
+    cand = None
+    if z3.is_app(iz) and iz.decl().kind() == z3.Z3_OP_ADD:
+        terms = iz.children()
+    else:
+        terms = [iz]
+    his, los = [], []
+    for t in terms:
+        x = _div_exact(t, wz)
+        if x is not None:
+            his.append(x)
+        else:
+            los.append(t)
+    if his:
+        lo = z3.simplify(z3.Sum(*los)) if los else z3.IntVal(0)
+        hi = z3.simplify(z3.Sum(*his)) if len(his) > 1 else his[0]
+        if not ctx.feasible(z3.Or(lo < 0, lo >= wz)):
+            return cdim(SInt(hi)), cdim(SInt(lo))
+    q = lift(i) // w
+    r = lift(i) - q * w
+    return q, r
+
+
+def _div_exact(t, wz):
+    """if term t is syntactically x*w return x else None"""
+    if t.eq(wz):
+        return z3.IntVal(1)
+    if z3.is_app(t) and t.decl().kind() == z3.Z3_OP_MUL:
+        ch = list(t.children())
+        wf = [c for c in (wz.children() if (z3.is_app(wz) and wz.decl().kind() == z3.Z3_OP_MUL) else [wz])]
+        rest = list(ch)
+        for f in wf:
+            for k, c in enumerate(rest):
+                if c.eq(f):
+                    rest.pop(k)
+                    break
+            else:
+                # integer constant factor: allow constant multiples
+                if z3.is_int_value(f):
+                    for k, c in enumerate(rest):
+                        if z3.is_int_value(c) and f.as_long() != 0 and c.as_long() % f.as_long() == 0:
+                            rest[k] = z3.IntVal(c.as_long() // f.as_long())
+                            break
+                    else:
+                        return None
+                else:
+                    return None
+        if not rest:
+            return z3.IntVal(1)
+        return z3.simplify(z3.Product(*rest)) if len(rest) > 1 else rest[0]
+    if z3.is_int_value(t) and z3.is_int_value(wz) and wz.as_long() != 0 and t.as_long() % wz.as_long() == 0:
+        return z3.IntVal(t.as_long() // wz.as_long())
+    return None
+
+
+def _structural_reshape(oshape, shape):
+    """common refinement of two shapes into one sequence of atomic factors; None if impossible."""
+    fo = [_factors(d) for d in oshape]
+    fn = [_factors(d) for d in shape]
+    seq = []          # atomic factors in C order
+    grp_o = [[] for _ in oshape]   # positions in seq per old dim
+    grp_n = [[] for _ in shape]
+    io, in_ = 0, 0
+    ro, rn = (list(fo[0]) if fo else []), (list(fn[0]) if fn else [])
+    while True:
+        while io < len(fo) and not ro:
+            io += 1
+            ro = list(fo[io]) if io < len(fo) else []
+        while in_ < len(fn) and not rn:
+            in_ += 1
+            rn = list(fn[in_]) if in_ < len(fn) else []
+        if io >= len(fo) or in_ >= len(fn):
+            break
+        hit = None
+        for a_, x in enumerate(ro):
+            for b_, y in enumerate(rn):
+                if _same_factor(x, y):
+                    hit = (a_, b_)
+                    break
+            if hit:
+                break
+        if hit is None:
+            return None
+        x = ro.pop(hit[0])
+        rn.pop(hit[1])
+        grp_o[io].append(len(seq))
+        grp_n[in_].append(len(seq))
+        seq.append(x)
+    if io < len(fo) or in_ < len(fn):
+        return None
+    return seq, grp_o, grp_n
+
+
 def reshape(a, shape, order='C'):
     _log('reshape(C order)')
-    a = asarray(a)
+    a = _live(a)
     if isinstance(shape, (int, SInt)):
         shape = (shape,)
     shape = list(shape)
@@ -463,6 +602,31 @@ def reshape(a, shape, order='C'):
                 raise ValueError('cannot reshape')
             shape[k] = q
     shape = tuple(cdim(d) for d in shape)
+    oshape = a.shape
+    st = _structural_reshape(oshape, shape)
+    if st is not None:
+        seq, grp_o, grp_n = st
+
+        def imap(oidx, seq=seq, grp_o=grp_o, grp_n=grp_n):
+            digits = [None] * len(seq)
+            for k, g in enumerate(grp_n):
+                i = oidx[k]
+                for pos, s_ in enumerate(g):
+                    rest = [seq[t] for t in g[pos + 1:]]
+                    if not rest:
+                        digits[s_] = i
+                    else:
+                        hi, lo = split_index(i, _prod(rest))
+                        digits[s_] = hi
+                        i = lo
+            res = []
+            for k, g in enumerate(grp_o):
+                v = 0
+                for s_ in g:
+                    v = v * seq[s_] + digits[s_]
+                res.append(v)
+            return tuple(res)
+        return SArr(shape, None, a.dtype, base=(a, imap))
     newsize = 1
     for d in shape:
         newsize = newsize * d
@@ -472,9 +636,7 @@ def reshape(a, shape, order='C'):
     else:
         if not bool(lift(newsize) == lift(a.size)):
             raise ValueError('cannot reshape array of size %s into shape %s' % (a.size, shape))
-    oshape = a.shape
 
-    # fast paths: identical shapes; drop/add unit axes
     def imap(oidx, shape=shape, oshape=oshape):
         # linear index then unravel (quotient-remainder on symbolic extents)
         lin = 0
@@ -490,40 +652,28 @@ def reshape(a, shape, order='C'):
                 if isinstance(d, int) and d == 1:
                     res.append(0)
                 else:
-                    res.append(rem % d)
-                    rem = rem // d
+                    hi, lo = split_index(rem, d)
+                    res.append(lo)
+                    rem = hi
         return tuple(reversed(res))
-    nz_new = [d for d in shape if not (isinstance(d, int) and d == 1)]
-    nz_old = [d for d in oshape if not (isinstance(d, int) and d == 1)]
-    if len(nz_new) == len(nz_old) and all((x is y) or (isinstance(x, int) and isinstance(y, int) and x == y)
-                                           or (isinstance(x, SInt) and isinstance(y, SInt) and x.z.eq(y.z))
-                                           for x, y in zip(nz_new, nz_old)):
-        kn = [k for k, d in enumerate(shape) if not (isinstance(d, int) and d == 1)]
-        ko = [k for k, d in enumerate(oshape) if not (isinstance(d, int) and d == 1)]
-
-        def imap(oidx, kn=kn, ko=ko, nold=len(oshape)):
-            res = [0] * nold
-            for a_, b_ in zip(kn, ko):
-                res[b_] = oidx[a_]
-            return tuple(res)
     return SArr(shape, None, a.dtype, base=(a, imap))
 
 
 def ravel(a):
-    return asarray(a).ravel()
+    return _live(a).ravel()
 
 
 def transpose(a, axes=None):
-    return asarray(a).transpose(axes) if axes is not None else asarray(a).T
+    return _live(a).transpose(axes) if axes is not None else _live(a).T
 
 
 def swapaxes(a, i, j):
-    return asarray(a).swapaxes(i, j)
+    return _live(a).swapaxes(i, j)
 
 
 def moveaxis(a, src, dst):
     _log('moveaxis')
-    a = asarray(a)
+    a = _live(a)
     nd = a.ndim
     src = [src] if isinstance(src, int) else list(src)
     dst = [dst] if isinstance(dst, int) else list(dst)
@@ -536,7 +686,7 @@ def moveaxis(a, src, dst):
 
 
 def expand_dims(a, axis):
-    a = asarray(a)
+    a = _live(a)
     key = [slice(None)] * a.ndim
     axis = axis if axis >= 0 else a.ndim + 1 + axis
     key.insert(axis, None)
@@ -544,7 +694,7 @@ def expand_dims(a, axis):
 
 
 def squeeze(a, axis=None):
-    return asarray(a).squeeze()
+    return _live(a).squeeze()
 
 
 def broadcast_to(a, shape):
@@ -629,7 +779,7 @@ def vstack(arrays):
 
 
 def _flip(a, axis):
-    a = asarray(a)
+    a = _live(a)
     key = [slice(None)] * a.ndim
     key[axis] = slice(None, None, -1)
     return a[tuple(key)]
@@ -638,7 +788,7 @@ def _flip(a, axis):
 def flipud(a): return _flip(a, 0)
 def fliplr(a): return _flip(a, 1)
 def flip(a, axis=None):
-    a = asarray(a)
+    a = _live(a)
     if axis is None:
         for k in range(a.ndim):
             a = _flip(a, k)
@@ -1096,6 +1246,41 @@ def diag(v):
     raise Unsupported('diag of matrix')
 
 
+class _Random:
+    """np.random: draws are havocked within the documented support (poisson: integers >= 0;
+    normal: any real).  A harness may install its own noise model through `hook`."""
+    hook = None
+
+    def poisson(self, lam=1.0, size=None):
+        _log('random.poisson: havoc, integer >= 0')
+        if self.hook is not None:
+            return self.hook('poisson', lam, size)
+        shp = _shape(size) if size is not None else asarray(lam).shape
+        nm = ctx.fresh_name('poisson')
+        a = sym_array(nm, shp, DT('i', 64), register=False)
+        src = a._fn
+        def fn(idx):
+            v = src(idx)
+            ctx.add(v.z >= 0)
+            return v
+        a._fn = fn
+        return a
+
+    def normal(self, loc=0.0, scale=1.0, size=None):
+        _log('random.normal: havoc, any real')
+        if self.hook is not None:
+            return self.hook('normal', (loc, scale), size)
+        shp = _shape(size) if size is not None else asarray(loc).shape
+        return sym_array(ctx.fresh_name('normal'), shp, DT('f', 64), register=False)
+
+
+    def __getattr__(self, k):
+        raise Unsupported('random.%s is not modelled' % k)
+
+
+random = _Random()
+
+
 # --------------------------------------------------------------------------- fft
 class _FFT:
     """scipy.fft model: index maps for shifts, DFT sums as Sigma-terms (assumed contracts)."""
@@ -1195,6 +1380,10 @@ class _FFT:
         return _FFT._dft1(r, axes[0] % a.ndim, s[0], +1, norm)
 
 
+    def __getattr__(self, k):
+        raise Unsupported('fft.%s is not modelled' % k)
+
+
 fft = _FFT()
 
 
@@ -1209,6 +1398,17 @@ class _NDImage:
         if d is None:
             raise Unsupported('center_of_mass of a general array (only the point-source instance is modelled)')
         return tuple(SReal(sc._toreal(lift(p).z)) for p in d)
+
+
+    @staticmethod
+    def convolve(a, k, **kw):
+        """assumed contract: result has the input's shape and dtype; values unconstrained (havoc)."""
+        _log('ndimage.convolve: havoc of the same shape')
+        a = asarray(a)
+        return sym_array(ctx.fresh_name('convolve'), a.shape, a.dtype if a.dtype.kind in 'fc' else DT('f', 64), register=False)
+
+    def __getattr__(self, k):
+        raise Unsupported('ndimage.%s is not modelled' % k)
 
 
 ndimage = _NDImage()
@@ -1289,6 +1489,10 @@ class _Math:
     def copysign(a, b): return _math.copysign(a, b)
     @staticmethod
     def isclose(a, b, **kw): return a == b
+
+
+    def __getattr__(self, k):
+        raise Unsupported('math.%s is not modelled' % k)
 
 
 math = _Math()
@@ -1419,3 +1623,9 @@ BUILTIN_PATCH = {
     'isinstance': b_isinstance, 'len': b_len, 'int': b_int, 'float': b_float, 'max': b_max, 'min': b_min,
     'round': b_round, 'range': b_range, 'divmod': b_divmod, 'sum': b_sum, 'abs': b_abs,
 }
+
+
+def __getattr__(name):
+    if name.startswith('__'):
+        raise AttributeError(name)
+    raise Unsupported('numpy.%s is not modelled' % name)
